@@ -78,12 +78,13 @@ def build_value(ty: Ty, mv, memo=None):
             m, q = ty.pycls.split(":")
             cls = getattr(importlib.import_module(m), q)
             try:
-                return cls(**fields)
+                obj = cls(**fields)
             except Exception:
                 obj = object.__new__(cls)
                 for k, v in fields.items():
                     object.__setattr__(obj, k, v)
-                return obj
+            post = getattr(ty, "native_post", None)  # optional per-type fix-up of the native rendering
+            return post(obj) if post is not None else obj
         if ty.cls:
             _, _, cls = resolve_target(ty.cls)
             obj = object.__new__(cls)
@@ -251,9 +252,31 @@ def _call_spec_raw(fn, values):
     return fn(*[values[n] for n in names])
 
 
+def _seed_nodes(v, memo, depth=0):
+    """Parse-tree nodes are immutable inputs with IDENTITY semantics: the `old` snapshot must refer to the very same
+    node objects (a deep copy would make `old.xs == xs` false for lists of nodes)."""
+    import ast as _ast
+    if depth > 8:
+        return
+    if isinstance(v, (FakeNode, _ast.AST)):
+        memo[id(v)] = v
+        return
+    if isinstance(v, (list, tuple, set, frozenset)):
+        for x in v:
+            _seed_nodes(x, memo, depth + 1)
+    elif isinstance(v, dict):
+        for x in v.values():
+            _seed_nodes(x, memo, depth + 1)
+    elif hasattr(v, "__dict__") and not isinstance(v, type):
+        for x in list(vars(v).values()):
+            _seed_nodes(x, memo, depth + 1)
+
+
 def _safe_copy(v):
     try:
-        return copy.deepcopy(v)
+        memo = {}
+        _seed_nodes(v, memo)
+        return copy.deepcopy(v, memo)
     except Exception:
         return v
 
